@@ -20,12 +20,12 @@ CLAIMS = {
          "the extracted formulas); payload fits the 16-bit length field (CD5); every writing DataFile method advances the logical size on success (CD7); "
          "one Write call per append (WR1); writer emits exactly the declared chunk types, both readers stop on the same set and validate the "
          "Full/First-then-Middle/Last sequence (CT); pad test per record and tail test after every record end (CD3b/c); clean EOF, EOF by size only, decode "
-         "window (BD2, EOF1, BD4); block offsets are multiplied in 64 bits (WD1). The round trip over all (offset,length) pairs is arithmetic and is not decided (no solver).", "3/C11, 2.6"),
+         "window (BD2, EOF1, BD4); block offsets are multiplied in 64 bits (WD1); the in-block cursor stays below the block size, opens at the physical size and is threaded through the batch writer (CD8, CD9, CD10); both sides charge one header per chunk and every chunk is capped by its block (CD11, CD12); pooled buffers are released once and not used afterwards (POOL3, POOL4). The round trip over all (offset,length) pairs is arithmetic and is not decided (no solver).", "3/C11, 2.6"),
  "C12": ("dominating-guard facts (bounds, sign), CRC-gating dominance, who-may-call, per-property error-discipline (PS8)",
          "Decides: in the pre-checksum decoder every access to the input is dominated by a length guard and the stored-length-derived bound cannot wrap "
          "(BD1); unsigned conversion of fileSize-offset is guarded inside the loop in both readers (BD2); payload leaves the decoder only on the "
          "checksum-equal edge, the checksum covers input[4:end], ReadWriter.Read is invoked only by the chunk readers which decode what they read (BD3); "
-         "the decoder sees only the bytes just read (BD4); errors of every call that reaches a read are propagated, never swallowed (PS8); content never means end of log - no decoder returns io.EOF under a condition computed from its input, scans end only on io.EOF (EOF1, EOF2); chunk-type sequence validated (CT). Value equality "
+         "the decoder sees only the bytes just read (BD4); errors of every call that reaches a read are propagated, never swallowed (PS8); content never means end of log - no decoder returns io.EOF under a condition computed from its input, scans end only on io.EOF (EOF1, EOF2); chunk-type sequence validated (CT); inside the back-ends no error is turned into success (PS8 backend-read); an ignored error behind an empty branch is seen (PS8). Value equality "
          "under corruption and content that passes CRC-32 are not decided.", "3/C12, 2.7"),
  "C13": ("path-sensitive typestate (clean/dirty) over SSA CFGs with callee summaries, error facts and option specialisation",
          "For every path of Put/Delete (SyncStrategy=Always and =Threshold), Batch.Commit (Sync batch), DB.Sync, DB.Close and each ReadWriter "
@@ -38,12 +38,12 @@ CLAIMS = {
          "replay, hint load) the position is the one returned by the appending / flushing / decoding call made for the record carrying exactly that key "
          "(VF1); a successful tombstone append in Delete is always followed by the index delete of the same key (PS-DEL); positional reads of the DB API "
          "dispatch on pos.Fid (VF2); every append is preceded by the size check with rotation on overflow (PS7); no active-file alias is used across a "
-         "rotation (VF7); rotation registers the outgoing file (RO1); pooled records are reset (POOL); Get results are fresh (RT2); plus the frame group (writer/reader agreement, cursor bounds CD8/CD9, 64-bit offsets WD1, EOF rules, buffer single release POOL3) and the batch group (tagging, staging, BT1-BT4). Byte equality, chunk arithmetic and all operation sequences are not decided.", "3/C01, 2.4"),
+         "rotation (VF7); rotation registers the outgoing file (RO1); pooled records are reset (POOL); Get results are fresh (RT2); plus the frame group (writer/reader agreement, cursor bounds CD8/CD9, 64-bit offsets WD1, EOF rules, buffer single release POOL3) and the batch group (tagging, staging, BT1-BT5); the record handed on carries the call's key and value (VF0); looked-up positions are nil-tested (NIL1); no error is wrapped on its nil edge (ERR1); pooled objects are not used after release (POOL4). Byte equality, chunk arithmetic and all operation sequences are not decided.", "3/C01, 2.4"),
  "C02": ("value-provenance + dominance rules over the replay loop, batch tagging, pool invariant; guard facts for EOF; codec agreement",
          "Decides necessary structural conditions of restart: every record a batch frames (staged and seal) carries the batch id (VF3), recovery applies "
          "tagged records only on the Type==BatchFinished edge, removes the applied entry and keeps its pending map across files (VF3c/e/f), replayed "
          "positions pair with their keys (VF1), pooled records are reset (POOL), both chunk readers guard the unsigned size conversion inside the loop "
-         "(BD2), reader errors abort Open (PS8), MMap.Close truncates to the logical size before closing (TR1), record/hint codecs agree (CD1); recovery never looks at the size limit (CF2); plus the frame, batch and merge rule groups. "
+         "(BD2), reader errors abort Open (PS8), MMap.Close truncates to the logical size before closing (TR1), record/hint codecs agree (CD1); recovery never looks at the size limit (CF2); Close closes every file, completely, before it drops the map (CL1, CL1b); file names sort like ids (FN1); plus the frame, batch and merge rule groups. "
          "Equality of the two dumps over histories and configurations is not decided.", "3/C02"),
  "C04": ("value-provenance (batch-id tagging), path typestates (seal ordering, Sync-batch durability), stale-alias rule",
          "Decides: staged records and the seal carry Batch.batchID before framing (VF3a/b); recovery applies tagged records only under their seal, "
@@ -55,7 +55,7 @@ CLAIMS = {
          "Decides: Batch.Get's fallback read uses the file pos.Fid names (VF2); at every success return of Batch.Put the staged record is typed Normal "
          "(fresh from the reset pool or re-typed after lookup) (BT1, POOL); every exported Batch method preserves the protocol invariant "
          "(uncommitted <=> DB writer lock held) and a committed batch performs no effect (LK8/LK5); the staged slice only grows by append or is reset (SO1); "
-         "Batch.Put/Delete/Get do not retain caller slices in staged records (RT1); a staged record is in the lookup map iff it is in the staged slice (BT4). Equality with a layered reference map is not decided.", "3/C05"),
+         "Batch.Put/Delete/Get do not retain caller slices in staged records (RT1); a staged record is in the lookup map iff it is in the staged slice, buckets grow (BT4, BT4b); the staged size is charged, reset and compared before every staging, overflow flushes (BT5); staged records carry key and value (VF0); the rotated-file lookup is on the right edge of a live file-id test (VF2). Equality with a layered reference map is not decided.", "3/C05"),
  "C08": ("lockset / lock-protocol analysis (path-sensitive, interprocedural summaries, fresh-vs-shared contexts) + write-once table rule",
          "Decides the lock discipline the property's mechanism list names, on every path: each index update reachable from Put/Delete/batch flush "
          "holds the database writer lock continuously since its log append (LK3); an index read that decides an append lies in the same writer "
@@ -82,7 +82,7 @@ CLAIMS = {
  "C17": ("accounting value-flow pairing at every index update + size-check typestate + guarded-by for the counters",
          "Decides the pairing that keeps total-reclaim = sum of indexed sizes: at every index Put the new position's Size is charged to the total counter "
          "and the superseded position to reclaim under its non-nil test; at every index Delete the tombstone is charged to both and the superseded "
-         "position to reclaim (VF4; Put, Delete, batch flush, replay, hint load); every append of a mutating entry point (incl. batch flush and seal) is "
+         "position to reclaim (VF4; Put, Delete, batch flush, replay, hint load); every index implementation reports the superseded position (TB3b); writer and restart scan compute the same record size (CD11); every append of a mutating entry point (incl. batch flush and seal) is "
          "preceded by activeFile.Size()+estimate > DataFileSize with rotation on overflow (PS7); the counters are accessed under the lock (LK1). The "
          "numeric identity itself is not decided.", "3/C17"),
  "C03": ("structural necessary conditions only: single-write rule, FS-mutation ownership table, flush typestates, guard facts, EOF-by-size rule",
@@ -101,32 +101,32 @@ CLAIMS = {
          "Decides the structural skeleton of crash safety of merge/adoption: marker last, after durable closes of hint and every output file (PS5a, PS2); "
          "leftovers of a crashed merge removed before reuse (PS5f); every adoption mutation dominated by the marker-id != 0 edge (PS5c); originals removed only "
          "while a not-yet-adopted rewritten file still exists (PS5d); merge directory removed only after the rename loops ran to completion, never deferred, "
-         "loops left only by their condition or an error (PS5e); files adopted under their own names (PS5g); marker id provenance (MG2); framed marker (CD4); one Merge at a time (merge flag, LK4); removal targets constructed, not listed (RM1). "
+         "loops left only by their condition or an error (PS5e); files adopted under their own names (PS5g); marker id provenance (MG2); framed marker (CD4); one Merge at a time (merge flag, LK4); removal targets constructed, not listed (RM1); adoption tolerates already-removed originals (PS5k); everything Merge creates lies in its scratch directory (PS5l, MP1). "
          "The state recovered from each intermediate directory image is not decided.", "3/C07"),
  "C10": ("type-shape / ownership tables for snapshot iterators, writes-through-receiver summaries, heap-order typestate, snapshot value-flow",
          "Decides: the three shard-iterator types own their containers (fresh allocation or Clone) (TB5); index items and positions are immutable after "
          "construction (TB2, TB2c) so shared item pointers cannot change under an iterator; observers are read-only in all implementations (TB5b); the merged "
-         "iterator re-establishes heap order after moving cursors on every path of Rewind/Seek/Next (HP1) and never loses a shard cursor (HP2); ListKeys/Fold/NewIterator use one snapshot and Fold reads by the snapshot position (VF6); "
+         "iterator re-establishes heap order after moving cursors on every path of Rewind/Seek/Next (HP1), never loses a shard cursor (HP2) and keeps each in one container (HP3); the database iterator delegates every call and filters by prefix after every move, with the right polarity (IT1, IT1b, IT2); seek predicates are inclusive (SK1); movers of all implementations move, both directions alike (TB5c, TB5d); ListKeys/Fold/NewIterator use one snapshot and Fold reads by the snapshot position (VF6); "
          "iterator construction holds the shard lock in a sufficient mode (LK7). Sortedness, completeness, Seek/prefix semantics and cursor arithmetic are "
          "value dependent and not decided.", "3/C10"),
  "C14": ("sibling-agreement rules: per-implementation retention verdicts, dispatch exhaustiveness, back-end durability parity, configuration taint",
          "THIN. Relational over pairs of runs - not decided. Decided sibling-agreement conditions: all index implementations copy the key (RT3); both "
          "dispatchers cover every declared constant (TB3); both I/O back-ends flush in Sync and before close (PS2); snapshot ownership parity (TB5, TB2c); "
          "IndexType/ShardNum/FileIOType flow only into constructors, no other branch tests them (CF1); options of an open DB / live batch are never written (CFG1); heap order independent of shard count (HP1); recovery "
-         "independent of how a batch was split across files (VF3e); the batch overflow paths keep staging intact (batch group BT1-BT4); Merge liveness compares the whole position (MG3); recovery ignores the size limit (CF2).", "3/C14"),
+         "independent of how a batch was split across files (VF3e); the batch overflow paths keep staging intact (batch group BT1-BT4); Merge liveness compares the whole position (MG3); recovery ignores the size limit (CF2); index implementations agree on mutating and reporting the superseded position (TB3b); Close closes every file under either back-end (CL1, CL1b); file names sort like ids (FN1).", "3/C14"),
  "C18": ("value provenance of hint entries + typestate (one hint per rewrite) + codec agreement + adoption naming",
-         "Decides: the hinted position is result #0 of the rewriting call of the same record and the key is that record's Key, written to the file opened with "
+         "Decides: the hinted position is result #0 of the rewriting call of the same record (sizes: writer and scan charge one header per chunk, CD11) and the key is that record's Key, written to the file opened with "
          "the hint suffix, exactly one hint per successful rewrite (VF5); hint codec agreement (CD1); the hint loader inserts key and position of one decoded "
          "record, charges its size, and the key is not an alias of a reused buffer (VF1, VF4, RT2); rewritten files are adopted under the same id and suffix "
          "the hint names (PS5g). Equality of hint-built and scan-built indexes is not decided.", "3/C18"),
  "C19": ("lock-protocol pairing in the datatype layer, metadata codec agreement, type-tag table, batch tagging",
          "THIN. Reply equality with a reference model is NOT decided. Decided: on every path of every DataTypeService method each NewBatch is followed by "
          "Commit, with no database call that takes the lock in between (LK5); metadata encoder/decoder agree incl. the List-only tail (CD1); each command family "
-         "passes its own tag to the lookup, which returns the wrong-type error on the mismatch edge and reads no other stored field before the tag matched (TB4); existence is decided by the engine error, not by the value (DT1); the four list sites follow one half-open window convention and both cursors start equal (LIST1); structure updates are batches whose records and seal "
+         "passes its own tag to the lookup, which returns the wrong-type error on the mismatch edge and reads no other stored field before the tag matched (TB4); existence is decided by the engine error, not by the value (DT1); the four list sites follow one half-open window convention and both cursors start equal (LIST1); the stored length follows the window (LIST2); size changes are written back and paired with their element operation (DT4); encoders write every field (DT2); the score codec keeps 64 bits (FLT1); structure updates are batches whose records and seal "
          "are tagged and replayed under their seal (VF3).", "3/C19"),
  "C20": ("MMap size-reset typestate, backup argument/lock table, copy-completeness rule, error discipline of the copy",
          "Decides: an MMap method truncates to the logical size only when unmapped and invalidates the mapping bound (TB6); every MMap method copes with the "
-         "unmapped state (TB6b) and touches mapping state only under the MMap lock (LK13: the source stays usable); Merge leaves originals in place and rewrites untagged (PS5, VF3d); Backup resets the active and every rotated file; its size resets and copy "
+         "unmapped state (TB6b) and touches mapping state only under the MMap lock (LK13: the source stays usable); Merge leaves originals in place and rewrites untagged (PS5, VF3d); the scratch directory is a sibling named after the data directory (MP1); every success return of Backup follows the copy (CP2); no error is wrapped on its nil edge (ERR1); Backup resets the active and every rotated file; its size resets and copy "
          "are dominated by the database WRITER lock; source = DirPath, destination = parameter, lock file excluded (TB7); the walk callback skips an entry "
          "only for the root / an exclusion match (CP1); copy errors propagate (PS8). Equality of the copy with the source's mapping is not decided.", "3/C20"),
 }
